@@ -321,8 +321,9 @@ class LoopSpec:
     determine one; `decreases(v)` optional variant (int, >= 0, strictly
     decreasing)."""
 
-    def __init__(self, inv, modifies=(), types=None, decreases=None, unroll=None, ghost=()):
+    def __init__(self, inv, modifies=(), types=None, decreases=None, unroll=None, ghost=(), hints=None):
         self.inv = inv
+        self.hints = hints
         self.modifies = tuple(modifies)
         self.types = types or {}
         self.decreases = decreases
@@ -850,7 +851,7 @@ class Interp:
 
     def inductive_loop(self, s, env, globs, key, spec, kind, iter_state=None):
         c = ctx()
-        ns = lambda: NS(env, dict(iter_state or {}, **{g: c.ghost.get(g) for g in spec.ghost}))
+        ns = lambda: NS(env, dict(iter_state or {}, **{g: v for g, v in c.ghost.items() if isinstance(g, str)}))
         # (1) invariant holds initially
         c.oblige("%s/loop/%s/init" % (self.tag, key), self._inv(spec, ns()), kind="loop-init")
         # (2) havoc
@@ -898,6 +899,9 @@ class Interp:
                 pass
             if iter_state is not None:
                 iter_state["advance"]()
+            if spec.hints is not None:
+                for Lm, largs in spec.hints(ns()):
+                    Lm.use(**largs)
             c.oblige("%s/loop/%s/preserved" % (self.tag, key), self._inv(spec, ns()), kind="loop-preserved")
             if variant0 is not None:
                 v1 = spec.decreases(ns())
@@ -955,7 +959,7 @@ class Interp:
             raise Unsupported("for-loop over %r" % type(it))
         if isinstance(it, dict):
             items = list(it)
-        elif isinstance(it, SymRange):
+        elif isinstance(it, SymIter):
             if spec is None:
                 raise Unsupported("for-loop %s over a symbolic range needs an invariant" % key)
             return self.for_symbolic(s, env, globs, key, spec, it)
@@ -979,7 +983,7 @@ class Interp:
         invariant as v._i together with v._seq)."""
         c = ctx()
         st: Dict[str, Any] = {"_i": 0, "_seq": it}
-        if isinstance(it, SymRange):
+        if isinstance(it, SymIter):
             n = it.count()
         else:
             n = slen(it)
@@ -990,7 +994,7 @@ class Interp:
 
         def nxt():
             if self.truth(st["_i"] < n):
-                x = it.at(st["_i"]) if isinstance(it, SymRange) else it[st["_i"]]
+                x = it.at(st["_i"]) if isinstance(it, SymIter) else it[st["_i"]]
                 self.assign(s.target, x, env, globs)
                 return True
             return False
@@ -1584,7 +1588,7 @@ class Interp:
             return
         g = gens[i]
         it = self.eval(g.iter, env, globs)
-        if is_sym(it) or isinstance(it, SymRange):
+        if is_sym(it) or isinstance(it, SymIter):
             raise Unsupported("comprehension over a symbolic sequence")
         for x in list(it):
             self.assign(g.target, x, env, globs)
@@ -1621,7 +1625,24 @@ class MessageStr(str):
     split = _no
 
 
-class SymRange:
+class SymIter:
+    """Iterable of symbolic length: count() elements, at(i) the i-th."""
+
+
+class SeqChunks(SymIter):
+    """iterbytes(b): the one-byte slices of a bytes value."""
+
+    def __init__(self, seq):
+        self.seq = seq
+
+    def count(self):
+        return slen(self.seq)
+
+    def at(self, i):
+        return self.seq[i:i + 1] if not isinstance(self.seq, (bytes, str)) or is_sym(i) else self.seq[i:i + 1]
+
+
+class SymRange(SymIter):
     def __init__(self, start, stop, step=1):
         self.start, self.stop, self.step = start, stop, step
         if not isinstance(step, int) or step <= 0:
